@@ -13,6 +13,7 @@ From PowHsm Require Import Proofs.SrcEquivDongleM.
 From PowHsm Require Import Proofs.SrcEquivPinM.
 From PowHsm Require Import Proofs.SrcEquivBringupM.
 From PowHsm Require Import Proofs.SrcLiftBringup.
+From PowHsm Require Import Proofs.SrcEquivSgxM.
 Open Scope N_scope.
 
 (* version compatibility: same major, firmware minor.patch lexicographically not newer than the manager's *)
@@ -224,5 +225,18 @@ Theorem C09_source_otherwise_raises :
          (exists (e : exn) (w' : world),
             srcm_HSM2ProtocolLedger__initialize_device (proto_obj fields) w = (XRaise e, w')).
 Proof. exact (@src_bringup_otherwise_raises). Qed.
+
+(* HSM2DongleSGX.unlock as translated = the model's SGX branch on every world *)
+Theorem C09_source_sgx_unlock_is_model :
+  forall (self : pv) (pin : bytes) (w : world),
+         wf_bytes pin ->
+         srcm_HSM2DongleSGX__unlock self (VBytes pin) w = mres VBool (unlock KSgx pin w).
+Proof. exact (@srcm_sgx_unlock_ok). Qed.
+
+(* HSM2DongleSGX.get_retries likewise *)
+Theorem C09_source_sgx_get_retries_is_model :
+  forall (self : pv) (w : world),
+         srcm_HSM2DongleSGX__get_retries self w = mres vN (get_retries KSgx w).
+Proof. exact (@srcm_sgx_get_retries_ok). Qed.
 
 Example C09_nonvacuous : True. Proof. exact I. Qed. (* concrete bring-ups closed by vm_compute in Proofs/C09.v: Ledger bootloader reaching unlock and serving, retries = 1 stopping with no unlock APDU, SGX, signer 5.4.2 refused, PIN change stopping *)
